@@ -175,13 +175,17 @@ impl Format {
 
         let s = s_in.trim();
 
-        for (idx, char) in s.chars().enumerate() {
+        // NOTE: The indexes are byte indexes (the string may contain any unicode character), never character counts.
+        for (idx, char) in s.char_indices() {
+            // Byte index of the next character, i.e. the length of the string for the last character.
+            let next_idx = idx + char.len_utf8();
+            let is_last = next_idx == s.len();
             // We should parse if:
             // 1. we're at the end of the string
             // 2. Or we've hit a non-numeric char and the token is fully numeric
             // 3. Or, token is not numeric (e.g. month name) and the current char is the separator
             // 4. And, if the length of the current substring is longer than 1 and the char is not the optional separator of the previous token.
-            if idx == s.len() - 1
+            if is_last
                 || ((cur_token.is_numeric() && !char.is_numeric())
                     || (!cur_token.is_numeric() && (cur_item.sep_char_is(char))))
             {
@@ -189,15 +193,19 @@ impl Format {
                 if idx == prev_idx
                     && (prev_item.second_sep_char.is_none() || prev_item.second_sep_char_is(char))
                 {
-                    prev_idx += 1;
+                    prev_idx = next_idx;
                     continue;
                 }
 
                 if cur_token == Token::Timescale {
                     // Then we match the timescale directly.
-                    if idx != s.len() - 1 {
+                    if !is_last {
                         // We have some remaining characters, so let's parse those in the only formats we know.
-                        ts = TimeScale::from_str(s[idx..].trim()).with_context(|_| ParseSnafu {
+                        let ts_str = s.get(idx..).ok_or(HifitimeError::Parse {
+                            source: ParsingError::UnknownFormat,
+                            details: "when parsing from format string",
+                        })?;
+                        ts = TimeScale::from_str(ts_str.trim()).with_context(|_| ParseSnafu {
                             details: "when parsing from format string",
                         })?;
                     }
@@ -210,7 +218,7 @@ impl Format {
                 prev_item = cur_item;
                 prev_token = cur_token;
 
-                let end_idx = if idx != s.len() - 1 || !char.is_numeric() {
+                let end_idx = if !is_last || !char.is_numeric() {
                     // Only advance the token if we aren't at the end of the string
                     if cur_item.sep_char_is_not(char)
                         && (cur_item.second_sep_char.is_none()
@@ -231,7 +239,8 @@ impl Format {
                         break;
                     }
                     cur_item_idx += 1;
-                    match self.items[cur_item_idx] {
+                    // NOTE: A format may use all of its items, so the next index may be one past the last item.
+                    match self.items.get(cur_item_idx).copied().flatten() {
                         Some(item) => {
                             cur_item = item;
                             cur_token = cur_item.token;
@@ -241,18 +250,30 @@ impl Format {
 
                     idx
                 } else {
-                    idx + 1
+                    next_idx
                 };
 
-                let sub_str = &s[prev_idx..end_idx];
+                let sub_str = match s.get(prev_idx..end_idx) {
+                    Some(sub_str) => sub_str,
+                    None => {
+                        return Err(HifitimeError::Parse {
+                            source: ParsingError::UnknownFormat,
+                            details: "when parsing from format string",
+                        })
+                    }
+                };
 
                 match prev_token {
                     Token::YearShort => {
                         decomposed[0] =
-                            sub_str.parse::<i32>().map_err(|_| HifitimeError::Parse {
-                                source: ParsingError::ValueError,
-                                details: "could not parse year as i32",
-                            })? + 2000;
+                            sub_str
+                                .parse::<i32>()
+                                .ok()
+                                .and_then(|year| year.checked_add(2000))
+                                .ok_or(HifitimeError::Parse {
+                                    source: ParsingError::ValueError,
+                                    details: "could not parse year as i32",
+                                })?;
                     }
                     Token::DayOfYear => {
                         // We must parse this as a floating point value.
@@ -279,7 +300,11 @@ impl Format {
                         }
                     }
                     Token::WeekdayDecimal => {
-                        todo!()
+                        // Parsing the weekday in its decimal form is not supported.
+                        return Err(HifitimeError::Parse {
+                            source: ParsingError::UnknownFormat,
+                            details: "parsing the decimal weekday is not supported",
+                        });
                     }
                     Token::MonthName | Token::MonthNameShort => {
                         match MonthName::from_str(sub_str) {
@@ -303,24 +328,37 @@ impl Format {
                                     Some(pos) => {
                                         // If these are the subseconds, we must convert them to nanoseconds
                                         if prev_token == Token::Subsecond {
-                                            if end_idx - prev_idx != 9 {
-                                                decomposed[pos] = val
-                                                    * 10_i32.pow((9 - (end_idx - prev_idx)) as u32);
+                                            let num_digits = end_idx - prev_idx;
+                                            // Nanoseconds have at most nine digits, and must fit in the integer once scaled.
+                                            let scaled = if num_digits <= 9 {
+                                                10_i32
+                                                    .checked_pow((9 - num_digits) as u32)
+                                                    .and_then(|scale| val.checked_mul(scale))
                                             } else {
-                                                decomposed[pos] = val;
-                                            }
+                                                None
+                                            };
+                                            decomposed[pos] = match scaled {
+                                                Some(nanos) => nanos,
+                                                None => {
+                                                    return Err(HifitimeError::Parse {
+                                                        source: ParsingError::ValueError,
+                                                        details: "invalid subseconds",
+                                                    })
+                                                }
+                                            };
                                         } else {
                                             decomposed[pos] = val
                                         }
                                     }
                                     None => match prev_token {
                                         Token::DayOfYearInteger => day_of_year = Some(val as f64),
-                                        Token::Weekday => todo!(),
-                                        Token::WeekdayShort => todo!(),
-                                        Token::WeekdayDecimal => todo!(),
-                                        Token::MonthName => todo!(),
-                                        Token::MonthNameShort => todo!(),
-                                        _ => unreachable!(),
+                                        _ => {
+                                            // The other tokens are not integers (names, time scale).
+                                            return Err(HifitimeError::Parse {
+                                                source: ParsingError::UnknownFormat,
+                                                details: "token cannot be parsed as an integer",
+                                            });
+                                        }
                                     },
                                 }
                             }
@@ -334,10 +372,10 @@ impl Format {
                     }
                 }
 
-                prev_idx = idx + 1;
+                prev_idx = next_idx;
                 // If we are about to parse an hours offset, we need to set the sign now.
                 if cur_token == Token::OffsetHours {
-                    if &s[idx..idx + 1] == "-" {
+                    if char == '-' {
                         offset_sign = -1;
                     }
                     prev_idx += 1;
@@ -359,7 +397,10 @@ impl Format {
                     + (decomposed[4] as i64) * Unit::Minute
                     + (decomposed[5] as i64) * Unit::Second
                     + (decomposed[6] as i64) * Unit::Nanosecond;
-                Epoch::from_day_of_year(decomposed[0], days, ts) + elapsed
+                // NOTE: The year is not validated by the tokenizer, so the start of the year may not be representable.
+                let start_of_year =
+                    Epoch::maybe_from_gregorian(decomposed[0], 1, 1, 0, 0, 0, 0, ts)?;
+                start_of_year + (days - 1.0) * Unit::Day + elapsed
             }
             None => Epoch::maybe_from_gregorian(
                 decomposed[0],
